@@ -4,6 +4,8 @@
 //! harness can observe the lexer's token stream and the causes of a type error.
 pub use crate::parse::verif_lex::{tokenize, Lex, LexErr, LexResult, Token};
 
+pub use crate::generate::VerifImports as Imports;
+
 use crate::check::result::TypeErr;
 use crate::common::position::Position;
 
